@@ -216,16 +216,18 @@ Definition prefixes_of (k : bits) : list bits :=
 Definition gaps_spec (K : list bits) (target : bits) : list bits :=
   let comparable_with_some p := existsb (comparable p) K in
   let cands := target :: flat_map (fun k => map flip_last (prefixes_of k)) K in
-  nodup (list_eq_dec Bool.bool_dec)
-    (filter (fun p => is_prefix target p && negb (comparable_with_some p)
-                      && (bits_eqb p target || comparable_with_some (removelast p))) cands).
+  filter (fun p => if is_prefix target p then
+                     if comparable_with_some p then false
+                     else if bits_eqb p target then true else comparable_with_some (removelast p)
+                   else false)
+         (nodup (list_eq_dec Bool.bool_dec) cands).
 
 (* maximal full prefixes *)
 Definition coalesce_spec (K : list bits) : list bits :=
   let f := S (maxlen K) in
-  nodup (list_eq_dec Bool.bool_dec)
-    (filter (fun p => fullb f K p && match p with [] => true | _ => negb (fullb f K (removelast p)) end)
-            (flat_map prefixes_of K)).
+  filter (fun p => if fullb f K p then match p with [] => true | _ => negb (fullb f K (removelast p)) end
+                   else false)
+         (nodup (list_eq_dec Bool.bool_dec) (flat_map prefixes_of K)).
 
 (* [closer k a b] without building the XOR lists: at the first position where a and b differ,
    a agrees with k (equal lengths) -- the lexicographic order of (a xor k) and (b xor k) *)
